@@ -360,6 +360,13 @@ func extractOption(nodes map[string]*chanCall, opts ...Option) (map[string][]any
 
 			if len(path.path) == 1 {
 				if len(opt.options) == 0 {
+					if opt.maxRunSteps > 0 {
+						// a step limit designated to this node: only a nested graph can take it
+						if curNode.action.subNodes == nil {
+							return nil, fmt.Errorf("a step limit has been designated to a node that is not a graph: %s", path)
+						}
+						optMap[curNodeKey] = append(optMap[curNodeKey], Option{maxRunSteps: opt.maxRunSteps})
+					}
 					// sub graph common callbacks has been added to ctx in initNodeCallback and won't be passed to subgraph only pass options
 					// node callback also won't be passed
 					continue
